@@ -1025,9 +1025,11 @@ class Driver:
             outer = spec.get_path(cfg, path)
         except Exception:
             return None
-        if not isinstance(outer, (cc.ListProxy, cc.DictProxy)) or not len(outer):
+        if not isinstance(outer, (list, tuple, dict)) or not len(outer):
             return None
-        inner = [v for v in (outer.values() if isinstance(outer, dict) else outer) if isinstance(v, (cc.ListProxy, cc.DictProxy))]
+        # (whatever the field handed out for its value: the typed containers it should be, or - a declared default given as
+        # a tuple - something else that still holds lists)
+        inner = [v for v in (outer.values() if isinstance(outer, dict) else outer) if isinstance(v, (list, dict))]
         if not inner:
             return None
         target = inner[op.get("which", 0) % len(inner)]
